@@ -72,3 +72,10 @@ TABLE['C01']['assumptions'] = list(_WORLD_ASSUME)
 TABLE['C07']['assumptions'] = list(_WORLD_ASSUME) + ['site World.process: a processor does not add or remove processors of the world being processed (C07 quantifies over sequences of calls)']
 
 TABLE['C07']['modules'] = ['bisect_spec', 'world_spec']
+
+TABLE['C20'] = {
+    'modules': ['spatial_spec'], 'replay': 'spatial_replay', 'level': 'proof',
+    'trusted_base': T_STATE + ['T3 float treated as the real field; x % 360. = x - 360*floor(x/360)'],
+    'assumptions': ['machine arithmetic treated as mathematical (rotation modulo 360 over the reals)'],
+    'explanation': 'Each of the six setters is verified: the stored value, and the single dispatch invocation it performs (ghost invocation log) carrying the value the getter returns afterwards; both constructors store fresh vectors.',
+}
